@@ -34,6 +34,9 @@ func runTraceCase(c *Ctx, idx int, sp *traceSpec) *CaseResult {
 	}
 	pipeline := pls[r.Intn(len(pls))]
 	style := traceStyle(c.Rng(idx, 1))
+	if style.Redundant {
+		DecorateProgram(prog, c.Rng(idx, 2))
+	}
 	lib, text, err := BuildVia(pipeline, prog, style)
 	if err != nil {
 		cr.inconclusive("generated program rejected by the builder or the store/load pipeline (judged by C17/C12): " + trunc(err.Error(), 60))
